@@ -362,6 +362,13 @@ func Main(id string, scenarios []Scenario, extra Extra, seqParts ...SeqPart) {
 					msg = msg[:3000]
 				}
 				run.Violate(id+"|free-running|data-race-detected", "the race detector reported a data race in the free-running pass:\n"+msg, map[string]interface{}{"kind": "aux"})
+			} else if msg := stderr.String(); strings.Contains(msg, "panic:") || strings.Contains(msg, "fatal error:") {
+				// the free-running part runs the library in its own process: a panic on a goroutine nobody
+				// recovers, or a fatal error, is the death of an application that uses the library
+				if len(msg) > 3000 {
+					msg = msg[:3000]
+				}
+				run.Violate(id+"|free-running|process-death", "the free-running part died: "+err.Error()+"\n"+msg, map[string]interface{}{"kind": "aux"})
 			} else {
 				run.Infra("auxiliary binary failed: " + err.Error() + "\n" + stderr.String())
 			}
